@@ -16,8 +16,7 @@ def run(ck):
     try:
         ck.write_generated("Status.lean", gen_status.generate(REPO, ck.work))
     except Exception as e:
-        ck.machinery_error("translator gen_status failed: %r" % (e,))
-        return
+        ck.translator_failed("translator gen_status failed: %r" % (e,))
     if not ck.build_driver(): return
     proved = ck.prove()
     exe = ck.cc("h_c20", ["h_c20.c", os.path.join(REPO, "src/status.c"), os.path.join(REPO, "src/string_view.c"),
